@@ -91,6 +91,11 @@ def run_function(repo, cls, name, kind, params, spec_module='specs.ir', opts=Non
     sm = importlib.import_module(spec_module)
     importlib.import_module('specs.ir_loops')
     spec = sm.IRSpec(ctx, ct)
+    try:
+        from specs.ir_functions import POSITIONAL
+        if (cls, name, kind) in POSITIONAL: ctx.enable_positions()
+    except ImportError:
+        pass
     fi = ct.find(cls, name, kind)
     if fi is None:
         return {'function': '%s.%s' % (cls, name), 'missing': True, 'results': [], 'degraded': 'function not found in source'}
